@@ -65,13 +65,15 @@ MIN_EVENTS = {
               'at_lines_checked': 1500, 'pn_exchanges': 600, 'dlc_invariant_evals': 50000,
               'refusals': 400, 'dm_frames_received_by_initiator': 300, 'opens_after_refusal': 250,
               'refuse_state_checks': 1200, 'refuse_exchanges': 400, 'mux_disc_frames_on_wire': 200,
-              'hf_commands_after_refusal': 800},
+              'hf_commands_after_refusal': 800, 'hf_concurrent_command_groups': 150,
+              'sink_installed_after_data_and_replaced': 100},
     'thorough': {'stream_checks': 8000, 'ledger_data_frames': 600000, 'ledger_credit_octets_received': 20000,
                  'fcs_checked': 600000, 'state_checks': 8000, 'slc_runs': 2000, 'slc_agreement_checks': 12000,
                  'at_lines_checked': 30000, 'pn_exchanges': 12000, 'dlc_invariant_evals': 1000000,
                  'refusals': 2000, 'dm_frames_received_by_initiator': 1500, 'opens_after_refusal': 1200,
                  'refuse_state_checks': 6000, 'refuse_exchanges': 2000, 'mux_disc_frames_on_wire': 1000,
-                 'hf_commands_after_refusal': 3500},
+                 'hf_commands_after_refusal': 3500, 'hf_concurrent_command_groups': 700,
+                 'sink_installed_after_data_and_replaced': 500},
 }
 CASE_TIMEOUT = 600
 
@@ -151,11 +153,14 @@ class Session:
         self.client = rfcomm.Client(ca, l2cap_mtu=client_mtu)
         self.mux = None
 
+    late_sink = False         # True: the acceptor leaves the DLC without a sink (data is queued by the DLC)
+
     def listen(self, channel, n1, k):
         def acceptor(dlc, _c=channel):
             buf = bytearray()
             self.sinks[id(dlc)] = buf
-            dlc.sink = buf.extend
+            if not self.late_sink:
+                dlc.sink = buf.extend
             self.accepted.setdefault(_c, []).append(dlc)
         got = self.server.listen(acceptor, channel=channel, max_frame_size=n1, initial_credits=k)
         assert got == channel
@@ -298,6 +303,7 @@ async def xfer(case, r: R):
     rg, ca, cb, geo = await make_rig(case, rng)
     cm, sm = L2_MTUS[(idx // 2) % 4], L2_MTUS[(idx // 8 + idx) % 4]
     s = Session(rg, ca, cm, sm)
+    s.late_sink = idx % 4 == 1
     ndlc = rng.choice([1, 1, 2, 3, 4])
     chans = rng.sample(range(1, 31), ndlc)
     params = []
@@ -319,6 +325,19 @@ async def xfer(case, r: R):
             r.bad('rfcomm/setup/open-dlc-hang', f'open_dlc({ch}) pending at T_v; params {params[j]} mtus {cm}/{sm}')
             return
     compare_state(r, s, f'opening {ndlc} DLCs', 'after-open')
+    pre = {}
+    if s.late_sink:
+        # data arrives before the acceptor has a sink; then a sink is installed, and installed again (a protocol
+        # object taking the DLC over): what was queued is delivered once
+        for j, (cd, sd) in enumerate(pairs):
+            pre[j] = make_data(j * 2 + 1, 0, rng.choice([1, 10, 100]))
+            cd.write(pre[j])
+        await rg.quiesce()
+        for j, (cd, sd) in enumerate(pairs):
+            buf = s.sinks[id(sd)]
+            sd.sink = buf.extend
+            sd.sink = (lambda b_: (lambda d_: b_.extend(d_)))(buf)
+            r.ev('sink_installed_after_data_and_replaced')
     big = (case['tier'] != 'quick' and rng.random() < 0.3) or (case['tier'] == 'quick' and idx % 12 == 0)
     cap = 100000 if big else rng.choice([3000, 6000])
     # effective information size per direction, from the parameters (not from bumble)
@@ -331,6 +350,8 @@ async def xfer(case, r: R):
         pb, b = write_sizes(rng, eff_s2c, cap if j == 0 else min(cap, 6000)) if rng.random() < 0.8 else ('none', [])
         plans.append({'c2s': a, 's2c': b, 'pat': (pa, pb)})
     sent = {(j, d): bytearray() for j in range(ndlc) for d in ('c2s', 's2c')}
+    for j, data in pre.items():
+        sent[(j, 'c2s')] += data
     queues = {(j, d): list(plans[j][d]) for j in range(ndlc) for d in ('c2s', 's2c') if plans[j][d]}
     while queues:
         key = rng.choice(sorted(queues))
@@ -1141,6 +1162,33 @@ async def after_slc_commands(r: R, rng, rg, hf, ag, mon: AtMonitor, detail: str)
                   f'{hf.unsolicited_queue.qsize() - unsolicited0} put in the unsolicited queue (the AG sent nothing '
                   f'unsolicited); {detail}')
         prev = 'refused' if refused else 'ok'
+    # two tasks use the same HfProtocol at once (an application command while the run loop answers the gateway):
+    # the commands are serialised by the protocol, each gets its own final result code
+    if rng.random() < 0.6:
+        lines = rng.sample(AFTER_SLC_ACCEPTED, 2) + ([rng.choice(AFTER_SLC_REFUSED)] if rng.random() < 0.4 else [])
+        rng.shuffle(lines)
+        g0 = len(mon.groups())
+        r.ev('hf_concurrent_command_groups')
+        r.ev('oracle_evals')
+        try:
+            res = await vloop.vwait(asyncio.gather(*[guarded(hf.execute_command(line)) for line in lines]))
+        except vloop.Hang:
+            r.bad('at/hf-command-hang/concurrent', f'{len(lines)} overlapping execute_command calls {lines}: pending at T_v; {detail}')
+            return
+        await rg.quiesce()
+        answered = [t for g in mon.groups()[g0:] for t in g[1]]
+        for line, (how, val) in zip(lines, res):
+            refused = line in AFTER_SLC_REFUSED
+            if how == 'raised' and isinstance(val, asyncio.TimeoutError):
+                r.bad('at/hf-command-unanswered/concurrent',
+                      f'of the overlapping calls {lines}, execute_command({line!r}) timed out; the AG wrote {answered}; {detail}')
+            elif refused != (how == 'raised'):
+                r.bad('at/hf-command-wrong-outcome/concurrent',
+                      f'of the overlapping calls {lines}, execute_command({line!r}) -> {how} {val!r}; the AG wrote {answered}; {detail}')
+        if hf.pending_command is not None or not hf.response_queue.empty():
+            r.bad('at/hf-state-left-behind/after-concurrent-commands',
+                  f'after the overlapping calls {lines}: pending_command={hf.pending_command!r}, '
+                  f'{hf.response_queue.qsize()} result codes left in the response queue; {detail}')
 
 
 async def slc(case, r: R):
